@@ -624,6 +624,8 @@ class Engine:
                 orig = name[len(short.lstrip("_")) + 1:]
                 if (v.cls + "." + orig) in self.R.contracts or (v.cls + "." + orig) in self.R.specs:
                     return [Res(st, VBound(v, orig))]
+            if self.repo_function(q) is not None:
+                return [Res(st, VBound(v, name))]        # a plain method of the repo class (executed in place when called)
             raise Unsupported("attribute %s of %r" % (name, v))
         if isinstance(v, VClass):
             q = (v.qname or "?") + "." + name
@@ -1346,7 +1348,62 @@ class Engine:
             return self.apply_contract(st, c, args, kwargs, node)
         if q in self.R.specs:
             return self.R.specs[q](self, st, args, kwargs)
+        r = self.auto_inline(st, q, args, kwargs)
+        if r is not None:
+            return r
         raise Unsupported("call of %s without contract" % q)
+
+    def local(self, st, name):
+        """the local variable a sidecar invariant calls `name`: by that name, or - after a rename in the repository - the variable that is now
+        first assigned at the same position in the function's source (positions recorded in the contract's `local_positions`)"""
+        if name in st.env:
+            return st.env[name]
+        pos = getattr(self.cur_contract, "local_positions", {}).get(name)
+        fnode = getattr(self, "cur_fnode", None)
+        if pos is not None and fnode is not None:
+            params = {a.arg for a in fnode.args.posonlyargs + fnode.args.args + fnode.args.kwonlyargs}
+            names = []
+            for n in sorted([x for x in ast.walk(fnode) if isinstance(x, ast.Name)], key=lambda x: (x.lineno, x.col_offset)):
+                if isinstance(n.ctx, ast.Store) and n.id not in params and n.id not in names:
+                    names.append(n.id)
+            if pos < len(names) and names[pos] in st.env:
+                return st.env[names[pos]]
+        raise Unsupported("the sidecar contract refers to local variable %r, which the function no longer has" % name)
+
+    def repo_function(self, q):
+        """(module, FunctionDef) of a plain repo function / method named q, or None"""
+        try:
+            modq, fq = self.split_func(q)
+            mod = Module.load(modq)
+        except Unsupported:
+            return None
+        fn = mod.funcs.get(fq)
+        if fn is None or fn.decorator_list:
+            return None
+        return mod, fn
+
+    def auto_inline(self, st, q, args, kwargs):
+        """a small helper of the repository that has neither contract nor spec (e.g. one a refactoring extracted) is executed in place: it is
+        verified as part of its caller, nothing is assumed about it.  Bounded depth, no recursion."""
+        stack = getattr(self, "_inline_stack", [])
+        if q in stack or len(stack) >= 3:
+            return None
+        found = self.repo_function(q)
+        if found is None:
+            return None
+        mod, fn = found
+        self._inline_stack = stack + [q]
+        self.stats.setdefault("auto_inlined", 0)
+        self.stats["auto_inlined"] += 1
+        self.auto_inlined = getattr(self, "auto_inlined", set()) | {q}
+        saved_class = getattr(self, "cur_class", None)
+        fq = self.split_func(q)[1]
+        self.cur_class = fq.rsplit(".", 1)[0] if "." in fq else None
+        try:
+            return self.inline(st, fn, mod, args, kwargs)
+        finally:
+            self._inline_stack = stack
+            self.cur_class = saved_class
 
     def split_func(self, q):
         parts = q.split(".")
@@ -1397,6 +1454,9 @@ class Engine:
             m = self.R.models.get(recv.cls)
             if m is not None and name in getattr(m, "methods", {}):
                 return m.methods[name](m, self, st, recv, args, kwargs)
+            r = self.auto_inline(st, q, [recv] + list(args), kwargs)
+            if r is not None:
+                return r
             raise Unsupported("method %s without contract" % q)
         tname = type(recv).__name__
         # an optional argument reaching a method of a typed value is used as that value (the None case is a TypeError path
@@ -2398,6 +2458,7 @@ class Engine:
             mod, fnode = self.contract_fnode(c)
             self.cur_module = mod
             self.cur_contract = c
+            self.cur_fnode = fnode
             fq = self.split_func(getattr(c, "real_name", None) or c.name)[1]
             self.cur_class = fq.rsplit(".", 1)[0] if "." in fq else None
             self.number_loops(fnode)
@@ -2444,6 +2505,11 @@ class Engine:
         except Unsupported as e:
             del self.obligations[n0:]
             self.unsupported.append((c.name, str(e)))
+            return False
+        except KeyError as e:
+            # a sidecar hook looked up a local variable / field that the (changed) function no longer has: outside the verified subset
+            del self.obligations[n0:]
+            self.unsupported.append((c.name, "contract refers to %s, which the function no longer has" % (e,)))
             return False
         finally:
             self.cur = None
